@@ -390,6 +390,8 @@ class Lowering:
             return args[1]
         if fname in ("list", "dict", "set") and not args and not kws:
             return ("display0", fname)
+        if fname == "getattr" and len(args) in (2, 3) and not kws and is_const(args[1]) and isinstance(args[1][1], str):
+            return self.mk_attr(args[0], args[1][1])
         return t
 
     def e_Subscript(self, e, env):
